@@ -715,3 +715,163 @@ Qed.
 
 Lemma reachable_keys_unique ops : keys_unique (run init ops).
 Proof. apply run_keys_unique. repeat split; constructor. Qed.
+
+(* ---------- between restarts: API operations alone keep every blob file recorded ---------- *)
+Definition is_api_op (o : op) : bool :=
+  match o with
+  | OComplete _ _ | OTouch _ _ | OPublish _ _ | ODelete _ _ | OStreamDelete _ _ | ORestart => true
+  | _ => false
+  end.
+
+Definition files_recorded (s : state) : Prop :=
+  files_only (disk s) /\
+  forall h, valid_name h = true -> is_file (disk s) h = true -> db_status (db s) h = Some Finished.
+
+Lemma is_file_set_key d h sz k : is_file (set_key d h (EFile sz)) k = if bytes_eqb h k then true else is_file d k.
+Proof. unfold is_file. rewrite lookup_set_key. destruct (bytes_eqb h k); reflexivity. Qed.
+
+Lemma is_file_remove_key d h k : is_file (remove_key d h) k = if bytes_eqb h k then false else is_file d k.
+Proof. unfold is_file. rewrite lookup_remove_key. destruct (bytes_eqb h k); reflexivity. Qed.
+
+Lemma is_file_write_file d h sz k : files_only d ->
+  is_file (write_file d h sz) k = if bytes_eqb h k then true else is_file d k.
+Proof. intro F. unfold write_file. rewrite (files_only_not_dir _ h F). apply is_file_set_key. Qed.
+
+Lemma get_blob_is_file d c h len k :
+  is_file (fst (fst (get_blob d c h len))) k = true -> is_file d k = true.
+Proof.
+  unfold get_blob. destruct (lookup c h); [auto|].
+  destruct (lookup d h) as [[sz|]|]; auto.
+  destruct ((len =? 0) || (len =? sz)); [auto|]. cbn [fst]. rewrite is_file_remove_key.
+  destruct (bytes_eqb h k); [discriminate | auto].
+Qed.
+
+Lemma create_blob_recorded s hl : valid_name (fst hl) = true -> files_recorded s -> files_recorded (create_blob s hl).
+Proof.
+  intros V [F R]. unfold create_blob, blob_completed, files_recorded. cbn [disk db].
+  split; [apply files_only_write; exact F|]. intros k Vk. rewrite is_file_write_file by exact F.
+  rewrite status_add_finished. destruct (bytes_eqb (fst hl) k); [reflexivity | apply R; exact Vk].
+Qed.
+
+Lemma fold_create_blob_recorded l : forall s, forallb (fun hl => valid_name (fst hl)) l = true ->
+  files_recorded s -> files_recorded (fold_left create_blob l s).
+Proof.
+  induction l as [|x l IH]; intros s V R; cbn [fold_left]; [exact R|].
+  cbn [forallb] in V. apply andb_true_iff in V as [V1 V2]. apply IH; [exact V2|]. apply create_blob_recorded; assumption.
+Qed.
+
+Lemma fold_insert_pending_finished (l : list (name * N)) k : forall db, db_status db k = Some Finished ->
+  db_status (fold_left (fun acc hl => db_insert_ignore acc (fst hl) Pending) l db) k = Some Finished.
+Proof.
+  induction l as [|x l IH]; intros db H; cbn [fold_left]; [exact H|].
+  apply IH. rewrite status_insert_ignore, H. reflexivity.
+Qed.
+
+Lemma delete_blob_is_file s h k :
+  is_file (disk (delete_blob s h)) k = if bytes_eqb h k then false else is_file (disk s) k.
+Proof.
+  unfold delete_blob. destruct (lookup (cache s) h); cbn [disk]; destruct (is_file (disk s) h) eqn:E;
+    try rewrite is_file_remove_key; destruct (bytes_eqb h k) eqn:B; try reflexivity;
+    apply bytes_eqb_eq in B; subst; exact E.
+Qed.
+
+Lemma delete_blob_db s h : db (delete_blob s h) = db s.
+Proof. unfold delete_blob. destruct (lookup (cache s) h); reflexivity. Qed.
+
+Lemma delete_loop_spec hs : forall s s1 ok, delete_loop s hs = (s1, ok) ->
+  db s1 = db s /\
+  (forall k, is_file (disk s1) k = true -> is_file (disk s) k = true) /\
+  (ok = true -> forall k, mem k hs = true -> is_file (disk s1) k = false).
+Proof.
+  induction hs as [|h r IH]; intros s s1 ok H; cbn [delete_loop] in H.
+  - inversion H. subst. split; [reflexivity|]. split; [auto|]. intros _ k M. discriminate.
+  - destruct (valid_name h).
+    + apply IH in H as [D [M1 M2]]. rewrite delete_blob_db in D. split; [exact D|]. split.
+      * intros k K. apply M1 in K. rewrite delete_blob_is_file in K. destruct (bytes_eqb h k); [discriminate | exact K].
+      * intros O k M. cbn [mem existsb] in M. fold (mem k r) in M. apply orb_true_iff in M as [M|M].
+        -- destruct (is_file (disk s1) k) eqn:K; [|reflexivity]. apply M1 in K. rewrite delete_blob_is_file in K.
+           rewrite beq_sym, M in K. discriminate.
+        -- apply M2; assumption.
+    + inversion H. subst. split; [reflexivity|]. split; [auto|]. discriminate.
+Qed.
+
+Lemma status_delete_all hs k : forall db,
+  db_status (db_delete_all db hs) k = if mem k hs then None else db_status db k.
+Proof.
+  unfold db_delete_all. induction hs as [|h r IH]; intro db; cbn [fold_left mem existsb]; [reflexivity|].
+  fold (mem k r). rewrite IH, status_delete. rewrite (beq_sym k h).
+  destruct (bytes_eqb h k); destruct (mem k r); reflexivity.
+Qed.
+
+Lemma mem_app k a b : mem k (a ++ b) = mem k a || mem k b.
+Proof. unfold mem. apply existsb_app. Qed.
+
+Lemma step_files_recorded s o : is_api_op o = true -> files_recorded s -> files_recorded (fst (step s o)).
+Proof.
+  intros A I. pose proof I as [F R]. destruct o; try discriminate; cbn [step].
+  - (* complete *) destruct (alive s); cbn [negb]; [|exact I]. unfold complete.
+    destruct (valid_name h) eqn:V; cbn [negb]; [|exact I].
+    pose proof (get_blob_files_only (disk s) (cache s) h len F) as G.
+    pose proof (get_blob_is_file (disk s) (cache s) h len) as M.
+    destruct (get_blob (disk s) (cache s) h len) as [[d1 v] c1]. cbn [fst] in G, M.
+    assert (I1 : forall c a, files_recorded (mkState d1 (db s) (completed s) c a)).
+    { intros c a. split; [exact G|]. cbn [disk db]. intros k Vk K. apply R; [exact Vk | apply M; exact K]. }
+    destruct v; [apply I1|]. destruct (is_file d1 h); [apply I1|]. destruct (len =? 0); [apply I1|].
+    unfold blob_completed, files_recorded. cbn [fst disk db].
+    split; [apply files_only_write; exact G|]. intros k Vk. rewrite is_file_write_file by exact G.
+    rewrite status_add_finished. destruct (bytes_eqb h k); [reflexivity|]. intro K. apply R; [exact Vk | apply M; exact K].
+  - (* touch *) destruct (alive s); cbn [negb]; [|exact I]. unfold touch.
+    destruct (valid_name h); cbn [negb]; [|exact I].
+    pose proof (get_blob_files_only (disk s) (cache s) h len F) as G.
+    pose proof (get_blob_is_file (disk s) (cache s) h len) as M.
+    destruct (get_blob (disk s) (cache s) h len) as [[d1 v] c1]. cbn [fst] in G, M.
+    split; [exact G|]. cbn [fst disk db]. intros k Vk K. apply R; [exact Vk | apply M; exact K].
+  - (* publish *) destruct (alive s); cbn [negb]; [|exact I]. unfold publish.
+    destruct (forallb _ _ && _) eqn:P; cbn [negb]; [|exact I].
+    apply andb_true_iff in P as [P _].
+    assert (V : forallb (fun hl : name * N => valid_name (fst hl)) (hs ++ [sd]) = true).
+    { apply forallb_forall. intros x Hx. rewrite forallb_forall in P. specialize (P x Hx).
+      apply andb_true_iff in P as [P _]. unfold fresh in P.
+      apply andb_true_iff in P as [P _]. apply andb_true_iff in P as [P _]. exact P. }
+    pose proof (fold_create_blob_recorded _ s V I) as [F1 R1].
+    split; [exact F1|]. cbn [fst disk db]. intros k Vk K. apply fold_insert_pending_finished. apply R1; assumption.
+  - (* delete *) destruct (alive s); cbn [negb]; [|exact I]. unfold delete_blobs.
+    pose proof (delete_loop_files_only hs s F) as G.
+    pose proof (delete_loop_spec hs s) as S.
+    destruct (delete_loop s hs) as [s1 ok]. cbn [fst] in G. specialize (S s1 ok eq_refl) as [D [M1 M2]].
+    assert (I1 : files_recorded s1).
+    { split; [exact G|]. intros k Vk K. rewrite D. apply R; [exact Vk | apply M1; exact K]. }
+    destruct ok; cbn [negb]; [|exact I1]. destruct from_db; [|exact I1].
+    split; [exact G|]. cbn [fst disk db]. intros k Vk K. rewrite status_delete_all.
+    destruct (mem k hs) eqn:Mk; [rewrite (M2 eq_refl k Mk) in K; discriminate|].
+    rewrite D. apply R; [exact Vk | apply M1; exact K].
+  - (* stream_delete *) destruct (alive s); cbn [negb]; [|exact I]. unfold stream_delete.
+    pose proof (delete_loop_files_only (sd :: hs) s F) as G.
+    pose proof (delete_loop_spec (sd :: hs) s) as S.
+    destruct (delete_loop s (sd :: hs)) as [s1 ok]. cbn [fst] in G. specialize (S s1 ok eq_refl) as [D [M1 M2]].
+    assert (I1 : files_recorded s1).
+    { split; [exact G|]. intros k Vk K. rewrite D. apply R; [exact Vk | apply M1; exact K]. }
+    destruct ok; cbn [negb]; [|exact I1].
+    split; [exact G|]. cbn [fst disk db]. intros k Vk K. rewrite status_delete_all.
+    destruct (mem k (hs ++ [sd])) eqn:Mk.
+    + assert (Mk' : mem k (sd :: hs) = true).
+      { rewrite mem_app in Mk. cbn [mem existsb] in *. fold (mem k hs) in *. rewrite orb_false_r in Mk.
+        rewrite orb_comm. exact Mk. }
+      rewrite (M2 eq_refl k Mk') in K. discriminate.
+    + rewrite D. apply R; [exact Vk | apply M1; exact K].
+  - (* restart *) cbn [fst]. split; [rewrite restart_disk; exact F|].
+    intros k Vk K. rewrite restart_disk in K. apply files_finished; assumption.
+Qed.
+
+Lemma run_files_recorded ops : forall s, forallb is_api_op ops = true -> files_recorded s -> files_recorded (run s ops).
+Proof.
+  induction ops as [|o r IH]; intros s H I; cbn [run]; [exact I|].
+  cbn [forallb] in H. apply andb_true_iff in H as [H1 H2]. apply IH; [exact H2|]. apply step_files_recorded; assumption.
+Qed.
+
+(* after a start the invariant holds whatever happened before, provided no directory was planted *)
+Lemma restart_files_recorded s : files_only (disk s) -> files_recorded (restart s).
+Proof.
+  intro F. split; [rewrite restart_disk; exact F|]. intros k Vk K. rewrite restart_disk in K.
+  apply files_finished; assumption.
+Qed.
